@@ -39,6 +39,8 @@ def make_case(rng, tier):
         c['sub'] = sub
         c['x'] = rand_coeffs(rng, ((D, P) if sub[0] != 'A' else ()) + sx, -2, 2)
         c['y'] = rand_coeffs(rng, ((D, P) if sub[1] != 'A' else ()) + sy, -2, 2)
+    elif kind == 'trace' and rng.random() < 0.6:
+        c['x'] = rand_coeffs(rng, (D, P, rng.randint(1, 5), rng.randint(1, 5)), -2, 2)      # tall / wide / square
     elif kind in ('inv', 'det', 'logdet', 'trace'):
         c['x'] = ops.gen_square(rng, D, P, n, 'spd' if kind == 'logdet' else 'general')
     elif kind == 'solve':
